@@ -150,11 +150,12 @@ def gen_sig_type(rng, names, generic_names, depth=0):
     return ANY_T
 
 
-def render_module(rng, classes):
-    lines = ["from __future__ import annotations", "import abc, enum", "from typing import Any, Generic, TypeVar",
-             'T = TypeVar("T")', ""]
-    names = [c[0] for c in classes]
-    generic_names = [c[0] for c in classes if c[2] == "generic"]
+DEP_MARK = "\n#====DEP-MODULE====\n"
+HEADER = ["from __future__ import annotations", "import abc, enum", "from typing import Any, Generic, TypeVar", 'T = TypeVar("T")', ""]
+
+
+def render_classes(rng, classes, names, generic_names, lines):
+    """names: what annotations of this module may mention."""
     for name, bases, flavour in classes:
         lines.append(f"class {name}({', '.join(bases)}):" if bases else f"class {name}:")
         if flavour == "enum":
@@ -169,22 +170,75 @@ def render_module(rng, classes):
         if rng.random() < 0.5:
             lines += [f"    def meth(self, a: {render_type(gen_sig_type(rng, names, generic_names))}) -> "
                       f"{render_type(gen_sig_type(rng, names, generic_names))}:", "        raise NotImplementedError"]
+        own = [b for b in bases if b in names]
+        if own and rng.random() < 0.6:      # the very common `def parent(self) -> Base`
+            lines += [f"    def as_base(self) -> {rng.choice(own)}:", "        return self"]
         lines += ["    x = 0", ""]
+
+
+def render_functions(rng, names, generic_names, lines):
     for i in range(rng.choice([2, 4, 6])):
         k = rng.choice([0, 1, 2])
         params = ", ".join(f"p{j}: {render_type(gen_sig_type(rng, names, generic_names))}" for j in range(k))
         lines += [f"def f{i}({params}) -> {render_type(gen_sig_type(rng, names, generic_names))}:",
                   "    raise NotImplementedError", ""]
-    return "\n".join(lines) + "\n"
+    if len(names) >= 1 and rng.random() < 0.7:
+        # a generator whose non-union return type holds a nested union, and requests that only 'maybe' match it
+        a, b = rng.choice(names), rng.choice(names + ["int", "str"])
+        shape = rng.choice(["tuple", "tuple", "list"])
+        if shape == "tuple":
+            ret, req = f"tuple[{a} | {b}, {a}]", f"tuple[{a}, {a}]"
+        else:
+            ret, req = f"list[{a} | {b}]", f"list[{a}]"
+        lines += [f"def g_nested() -> {ret}:", "    raise NotImplementedError", "",
+                  f"def g_use(p0: {req} | None, p1: {req} | int, p2: {req}) -> None:", "    pass", ""]
+
+
+def render_module(rng, classes, split=0):
+    """split > 0: the first `split` classes live in a dependency module; the module under test imports by name
+    only those of them it uses as base classes (the rest is reached through the hierarchy walk only)."""
+    names = [c[0] for c in classes]
+    generic = [c[0] for c in classes if c[2] == "generic"]
+    if not split:
+        lines = list(HEADER)
+        render_classes(rng, classes, names, generic, lines)
+        render_functions(rng, names, generic, lines)
+        return "\n".join(lines) + "\n"
+    dep, root = classes[:split], classes[split:]
+    dep_names = [c[0] for c in dep]
+    dlines = list(HEADER)
+    render_classes(rng, dep, dep_names, [g for g in generic if g in dep_names], dlines)
+    used = sorted({b for _, bases, _ in root for b in bases if b in dep_names})
+    if not used:
+        used = [dep_names[-1]]
+    rnames = used + [c[0] for c in root]
+    rlines = list(HEADER) + [f"from __DEP__ import {', '.join(used)}", ""]
+    render_classes(rng, root, rnames, [g for g in generic if g in rnames], rlines)
+    render_functions(rng, rnames, [g for g in generic if g in rnames], rlines)
+    return "\n".join(rlines) + "\n" + DEP_MARK + "\n".join(dlines) + "\n"
+
+
+def split_source(src, depname="c25_dep_probe"):
+    if DEP_MARK in src:
+        root, dep = src.split(DEP_MARK)
+        return root.replace("__DEP__", depname), dep
+    return src, None
 
 
 def gen_module_source(rng):
-    """A module source whose class statement executes (MRO / layout conflicts are re-drawn)."""
+    """A module source whose class statements execute (MRO / layout conflicts are re-drawn); in a third of the
+    cases a two-module project (source of the module under test + DEP_MARK + source of the dependency)."""
     for _ in range(30):
         classes = gen_hierarchy(rng)
-        src = render_module(rng, classes)
+        split = rng.randrange(1, len(classes)) if len(classes) >= 3 and rng.random() < 0.35 else 0
+        src = render_module(rng, classes, split)
+        root, dep = split_source(src)
         try:
-            exec(compile(src, "<gen>", "exec"), {"__name__": "c25_probe"})  # noqa: S102
+            ns = {"__name__": "c25_probe"}
+            if dep is not None:
+                exec(compile(dep, "<gen-dep>", "exec"), ns)  # noqa: S102
+                root = "\n".join(ln for ln in root.splitlines() if not ln.startswith("from c25_dep_probe import"))
+            exec(compile(root, "<gen>", "exec"), ns)  # noqa: S102
         except TypeError:
             continue
         return src, [c[0] for c in classes]
@@ -199,7 +253,11 @@ class Cluster:
         import pynguin.configuration as config
         from pynguin.analyses.module import generate_test_cluster
 
-        (scratch / f"{modname}.py").write_text(src)
+        self.depname = f"{modname}_dep"
+        root_src, dep_src = split_source(src, self.depname)
+        (scratch / f"{modname}.py").write_text(root_src)
+        if dep_src is not None:
+            (scratch / f"{self.depname}.py").write_text(dep_src)
         if str(scratch) not in sys.path:
             sys.path.insert(0, str(scratch))
         importlib.invalidate_caches()
@@ -209,8 +267,20 @@ class Cluster:
         self.cluster = generate_test_cluster(modname)
         self.ts = self.cluster.type_system
         self.module = sys.modules[modname]
-        self.class_names = list(class_names)
-        self.raw = {n: getattr(self.module, n) for n in class_names}
+        depmod = sys.modules.get(self.depname)
+        # analysed classes: those on the inheritance chain of a class of the module under test (defined there or
+        # imported by name).  Dependency classes that are only mentioned somewhere are registered at best, never walked.
+        chain = set()
+        for v in vars(self.module).values():
+            if isinstance(v, type) and v.__module__ in (modname, self.depname):
+                chain.update(v.__mro__)
+        self.raw = {}
+        for n in class_names:
+            r = getattr(self.module, n, None) or (getattr(depmod, n, None) if depmod else None)
+            if r is not None and r in chain:
+                self.raw[n] = r
+        self.class_names = [n for n in class_names if n in self.raw]
+        self.unreached = [n for n in class_names if n not in self.raw]
         import builtins
 
         for b in BUILTIN_UNIVERSE:
@@ -256,6 +326,7 @@ class Cluster:
     def close(self):
         if self.modname:
             sys.modules.pop(self.modname, None)
+            sys.modules.pop(getattr(self, "depname", "") or "", None)
 
     # --- abstraction -------------------------------------------------------------------------
     def name_of(self, ti):
